@@ -31,6 +31,8 @@ type c01case struct {
 	ExplicitMode bool `json:"explicitmode,omitempty"`
 	// StreamConds: branch conditions are built with the stream constructors (graphgen.BuildOpts.StreamConds)
 	StreamConds bool `json:"streamconds,omitempty"`
+	// PipeLambdas: the lambdas are Stream-native and emit real (pipe) streams of 1-2 chunks (graphgen.BuildOpts.PipeLambdas)
+	PipeLambdas bool `json:"pipelambdas,omitempty"`
 	// Malformed: which construction rule of a chain was broken on purpose ("" = none); informative only, the
 	// verdict comes from chainCompiles / chain_compiles on the forest itself
 	Malformed string `json:"malformed,omitempty"`
@@ -102,6 +104,11 @@ func (engine) Generate(r *lib.Rng, tier string, i int) any {
 	}
 	if r.Chance(1, 3) {
 		c.StreamConds = true
+	}
+	if r.Chance(1, 3) && streamable(&c.Case) {
+		// only forests of any-predecessor graphs and chains: in all-predecessor graphs / Workflows nodes can run on
+		// the zero value (a nil map), and a nil map does not survive being cut into chunks and concatenated
+		c.PipeLambdas = true
 	}
 	if streamable(&c.Case) {
 		switch x := r.Intn(8); {
@@ -357,6 +364,7 @@ func (engine) Run(c any) lib.Result {
 	ro.Build.AutoChainKeys = cc.AutoKeys
 	ro.Build.Reuse = cc.Reuse
 	ro.Build.StreamConds = cc.StreamConds
+	ro.Build.PipeLambdas = cc.PipeLambdas
 	if cc.ExplicitMode {
 		anyPred := func(idx int) []compose.GraphCompileOption {
 			if g := &cc.Forest[idx]; g.Front == "graph" && g.Mode == "pregel" {
@@ -399,6 +407,9 @@ func (engine) Run(c any) lib.Result {
 	}
 	if cc.StreamConds {
 		res.Tags = append(res.Tags, "conditions:stream-constructors")
+	}
+	if cc.PipeLambdas {
+		res.Tags = append(res.Tags, "lambdas:stream-native-pipe")
 	}
 	if cc.Reuse != 0 {
 		res.Tags = append(res.Tags, fmt.Sprintf("builders-shared-with-twin:%d", cc.Reuse))
